@@ -2,7 +2,10 @@ package main
 
 import (
 	"fmt"
+	"strings"
 	"sync"
+
+	"github.com/smallstep/certificates/authority"
 
 	"github.com/smallstep/certificates/authority/provisioner"
 	"verif/harness/cmd/c02/ss"
@@ -11,17 +14,21 @@ import (
 
 // Tokid is one case of the tokid stage: a provisioner type and the claims of a presented string.
 type Tokid struct {
-	Ty       string // jwk x5c sshpop nebula oidc azure0 azure1 aws0 aws1 gcp0 gcp1 k8ssa acme scep
-	Garbage  bool   // present an unparsable string
-	JTI      string
-	Nonce    string
-	MirID    string
-	Instance string
+	// Via: "" = the provisioner as configured in ca.json; "linkedca" = the same configuration stored in and loaded
+	// from the admin database representation (authority.ProvisionerToLinkedca then authority.ProvisionerToCertificates)
+	Via        string
+	CustomSANs bool   // disableCustomSANs of the configuration (azure, aws, gcp): must not influence token reuse
+	Ty         string // jwk x5c sshpop nebula oidc azure0 azure1 aws0 aws1 gcp0 gcp1 k8ssa acme scep
+	Garbage    bool   // present an unparsable string
+	JTI        string
+	Nonce      string
+	MirID      string
+	Instance   string
 }
 
 var tokidTypes = []string{"jwk", "x5c", "sshpop", "nebula", "oidc", "azure0", "azure1", "aws0", "aws1", "gcp0", "gcp1", "k8ssa", "acme", "scep"}
 
-func provOf(ty string) provisioner.Interface {
+func provOf(ty string, csans bool) provisioner.Interface {
 	switch ty {
 	case "jwk":
 		return &provisioner.JWK{Name: "p"}
@@ -34,17 +41,17 @@ func provOf(ty string) provisioner.Interface {
 	case "oidc":
 		return &provisioner.OIDC{Name: "p"}
 	case "azure0":
-		return &provisioner.Azure{Name: "p"}
+		return &provisioner.Azure{Type: "Azure", Name: "p", TenantID: "tenant", DisableCustomSANs: csans}
 	case "azure1":
-		return &provisioner.Azure{Name: "p", DisableTrustOnFirstUse: true}
+		return &provisioner.Azure{Type: "Azure", Name: "p", TenantID: "tenant", DisableCustomSANs: csans, DisableTrustOnFirstUse: true}
 	case "aws0":
-		return &provisioner.AWS{Name: "p"}
+		return &provisioner.AWS{Type: "AWS", Name: "p", Accounts: []string{"123"}, DisableCustomSANs: csans}
 	case "aws1":
-		return &provisioner.AWS{Name: "p", DisableTrustOnFirstUse: true}
+		return &provisioner.AWS{Type: "AWS", Name: "p", Accounts: []string{"123"}, DisableCustomSANs: csans, DisableTrustOnFirstUse: true}
 	case "gcp0":
-		return &provisioner.GCP{Name: "p"}
+		return &provisioner.GCP{Type: "GCP", Name: "p", ServiceAccounts: []string{"sa"}, DisableCustomSANs: csans}
 	case "gcp1":
-		return &provisioner.GCP{Name: "p", DisableTrustOnFirstUse: true}
+		return &provisioner.GCP{Type: "GCP", Name: "p", ServiceAccounts: []string{"sa"}, DisableCustomSANs: csans, DisableTrustOnFirstUse: true}
 	case "k8ssa":
 		return &provisioner.K8sSA{Name: "p"}
 	case "acme":
@@ -67,9 +74,19 @@ var (
 func runTokid(t *Tokid) (string, string) {
 	tokidOnce.Do(func() { tokidEnv = newEnv(true, false, tokidHooks) })
 	e := tokidEnv
-	p := provOf(t.Ty)
+	p := provOf(t.Ty, t.CustomSANs)
 	if p == nil {
 		return "", ""
+	}
+	if t.Via == "linkedca" {
+		// what an admin-database (or linked CA) deployment does with the same configuration
+		lp, err := authority.ProvisionerToLinkedca(p)
+		if err != nil {
+			return "", "" // this type's minimal configuration has no admin-database form
+		}
+		if p, err = authority.ProvisionerToCertificates(lp); err != nil {
+			return "", ""
+		}
 	}
 	claims := map[string]any{"iss": "p", "sub": "s", "aud": "a"}
 	if t.JTI != "" {
@@ -97,7 +114,13 @@ func runTokid(t *Tokid) (string, string) {
 	}
 	// AWS.GetTokenID validates the token first; an AWS identity document cannot be produced
 	// here, so every AWS case is one its validation rejects (awsvalid=0)
-	in := fmt.Sprintf("t ty=%s parses=%s jti=%s nonce=%s derived=%s awsvalid=0 sha=%s", t.Ty, c.B(!t.Garbage),
+	kind, dtofu := t.Ty, false
+	if n := len(kind); kind[n-1] == '0' || kind[n-1] == '1' {
+		kind, dtofu = kind[:n-1], kind[n-1] == '1'
+	}
+	in := fmt.Sprintf("t via=%s kind=%s dtofu=%s dcsans=%s parses=%s", map[string]string{"": "config", "linkedca": "linkedca"}[t.Via], kind, c.B(dtofu), c.B(t.CustomSANs), c.B(!t.Garbage))
+	in += fmt.Sprintf(" jti=%s nonce=%s derived=%s awsvalid=0 sha=%s", c.X(t.JTI), c.X(t.Nonce), c.X(derived), c.X(sha256hex(tok)))
+	_ = fmt.Sprintf("t ty=%s parses=%s jti=%s nonce=%s derived=%s awsvalid=0 sha=%s", t.Ty, c.B(!t.Garbage),
 		c.X(t.JTI), c.X(t.Nonce), c.X(derived), c.X(sha256hex(tok)))
 	var impl string
 	func() {
@@ -132,12 +155,25 @@ func runTokid(t *Tokid) (string, string) {
 		if fresh != (first == nil) || (key == "none") != (second == nil) {
 			impl += " VIOLATION=second-use"
 		}
+		// the property's exception list: a second use may pass only for the provisioner types that are
+		// defined or *configured* to allow it (K8sSA, ACME, SCEP, Azure with disableTrustOnFirstUse) — or when
+		// the string is not a token of that provisioner at all (GetTokenID errs; validation refuses it anyway)
+		documented := t.Ty == "k8ssa" || t.Ty == "acme" || t.Ty == "scep" || t.Ty == "azure1"
+		if second == nil && !documented && !t.Garbage && !strings.HasPrefix(t.Ty, "aws") {
+			impl += " VIOLATION=reuse-allowed-without-configuration"
+		}
 	}()
 	return in, impl
 }
 
 func cornerTokids() []*Tokid {
 	var out []*Tokid
+	for _, ty := range []string{"azure0", "azure1", "aws0", "aws1", "gcp0", "gcp1", "jwk", "oidc", "k8ssa", "acme", "x5c", "sshpop", "nebula", "scep"} {
+		for _, cs := range []bool{false, true} {
+			out = append(out, &Tokid{Via: "linkedca", CustomSANs: cs, Ty: ty, JTI: "jl-" + randHex(), Nonce: "nl-" + randHex(), MirID: "ml-" + randHex(), Instance: "il-" + randHex()})
+			out = append(out, &Tokid{CustomSANs: cs, Ty: ty, JTI: "jc-" + randHex(), Nonce: "nc-" + randHex(), MirID: "mc-" + randHex(), Instance: "ic-" + randHex()})
+		}
+	}
 	for _, ty := range tokidTypes {
 		out = append(out, &Tokid{Ty: ty, JTI: "j1-" + randHex(), Nonce: "n1-" + randHex(), MirID: "m-" + randHex(), Instance: "i-" + randHex()})
 		out = append(out, &Tokid{Ty: ty})
@@ -147,7 +183,10 @@ func cornerTokids() []*Tokid {
 }
 
 func genTokid(r *c.Rng) *Tokid {
-	t := &Tokid{Ty: c.Pick(r, tokidTypes), Garbage: r.Chance(1, 8)}
+	t := &Tokid{Ty: c.Pick(r, tokidTypes), Garbage: r.Chance(1, 8), CustomSANs: r.Chance(1, 2)}
+	if r.Chance(1, 2) {
+		t.Via = "linkedca"
+	}
 	// ids are made unique per run so that the shared table never already holds them
 	if r.Chance(3, 4) {
 		t.JTI = "j-" + randHex()
